@@ -39,6 +39,11 @@ def native_sweep(script, what, quick, thorough):
 
 
 REGISTRY = {
+    'C11': dict(module='contracts.C11', level='proof',
+                native=native_sweep('c11_ground.py', 'currents over real ground == ideal ground; medium split; far medium beyond every reflection point; sigma = 1e12 vs ideal ground (1..2 media, linear/circular boundary, radials)', 40, 1500),
+                undecided=['pattern converges to ideal ground as conductivity grows (limit; vectorised Fresnel branch)',
+                           'splitting a medium / adding a far medium leaves the pattern unchanged (vectorised Fresnel branch) -- native sweep only'],
+                trusted=['call graph over-approximated by method name and arity']),
     'C14': dict(module='contracts.C14', level='proof',
                 native=native_sweep('c14_history.py', 'sweep step == fresh run (every load kind, radii at the small-radius threshold), far/near order and repetition, compute twice, two processes with different hash seeds byte-identical (report and option file)', 12, 300),
                 undecided=['byte-identity of numpy/LAPACK/scipy results across processes is assumed (deterministic library functions)'],
